@@ -90,8 +90,9 @@ func scenSm4Shared(seed uint64, goroutines, iters int) (int, int, string, error)
 }
 
 // ---- FIRST use of a freshly created cipher.Block by many goroutines at once (rows sm4_new_cipher, sm4_decrypt,
-//      sm4_encrypt): every round makes a new object and releases the goroutines together, so that their first
-//      Decrypt / Encrypt calls on that object overlap; the reference results come from a separate object.
+//
+//	sm4_encrypt): every round makes a new object and releases the goroutines together, so that their first
+//	Decrypt / Encrypt calls on that object overlap; the reference results come from a separate object.
 func scenSm4First(seed uint64, goroutines, iters int) (int, int, string, error) {
 	r := hx.NewRng(seed)
 	diffs, first := 0, ""
